@@ -450,6 +450,56 @@ func monWholeSupply(s *Stream) {
 	}))
 }
 
+// monManyDenominations: many denominations reach the burn address in one block (one multi-denomination send, several
+// vouchers): the end-blocker's work is not bounded by anything but the block — all of them are burned.
+func monManyDenominations(s *Stream) {
+	s.Emit("mon.c07.many-denominations", guard(func() string {
+		old := genesisExtraCoins
+		genesisExtraCoins = nil
+		defer func() { genesisExtraCoins = old }()
+		burnAddr := sdk.MustAccAddressFromBech32(burntypes.BurnAddress)
+		A := newAcct("A", []byte("md-A"))
+		c, err := NewChain(memDB(), tmpHome(), []*Acct{A}, 1000000, nil)
+		if err != nil {
+			return "pass #no-chain"
+		}
+		t := c.Time.Add(5 * time.Second)
+		c.Begin(t)
+		ctx := c.DeliverCtx()
+		var coins sdk.Coins
+		for i := 0; i < 150; i++ {
+			coins = coins.Add(sdk.NewInt64Coin(fmt.Sprintf("ibc/%064X", i+1), int64(10+i)))
+		}
+		if err := c.App.BankKeeper.MintCoins(ctx, "mint", coins); err != nil {
+			return "pass #cannot-mint " + err.Error()
+		}
+		if err := c.App.BankKeeper.SendCoinsFromModuleToAccount(ctx, "mint", A.Addr, coins); err != nil {
+			return "pass #cannot-fund"
+		}
+		c.End()
+		c.Commit()
+		t = t.Add(5 * time.Second)
+		c.Begin(t)
+		ctx = c.DeliverCtx()
+		sent := coins.Add(sdk.NewInt64Coin(feeDenom, 5))
+		if err := c.App.BankKeeper.SendCoins(ctx, A.Addr, burnAddr, sent); err != nil {
+			return "pass #cannot-send " + err.Error()
+		}
+		c.End()
+		ctx = c.DeliverCtx()
+		if left := c.App.BankKeeper.SpendableCoins(ctx, burnAddr); !left.IsZero() {
+			return fmt.Sprintf("fail #burn-address-not-empty-at-end-of-block (%d denominations left)", len(left))
+		}
+		for _, cn := range coins {
+			if !c.App.BankKeeper.GetSupply(ctx, cn.Denom).Amount.IsZero() {
+				return "fail #supply-did-not-shrink-by-what-reached-the-burn-address " + cn.Denom
+			}
+		}
+		c.Commit()
+		return "pass"
+	}))
+}
+
 func init() {
 	streams["burn"] = func(dir string, rng *rand.Rand, n int, tier string) {
 		s := NewStream(dir, "burn")
@@ -459,6 +509,7 @@ func init() {
 		monInvariantCheckPeriod(s)
 		monSendDisabled(s)
 		monWholeSupply(s)
+		monManyDenominations(s)
 		for h := 0; h < n; h++ {
 			burnHistory(s, rng, 10+rng.Intn(25), true)
 		}
